@@ -913,7 +913,7 @@ func genC07(c *h.Ctx) {
 		}
 	}
 	anames := []string{"15", "16", "5", "0", "17"}
-	for i := 0; i < c.N(3000, 60000); i++ {
+	for i := 0; i < c.N(3000, 30000); i++ {
 		var toks []string
 		for k := 1 + r.Intn(7); k > 0; k-- {
 			n := anames[r.Intn(len(anames))]
@@ -951,7 +951,7 @@ func genC07(c *h.Ctx) {
 			}
 		}
 	}
-	for i := 0; i < c.N(1500, 30000); i++ {
+	for i := 0; i < c.N(1500, 15000); i++ {
 		var toks []string
 		for k := 1 + r.Intn(6); k > 0; k-- {
 			if r.Chance(25) {
@@ -1012,7 +1012,7 @@ func genC07(c *h.Ctx) {
 		}
 	}
 	// (3) random histories
-	for i := 0; i < c.N(6000, 250000); i++ {
+	for i := 0; i < c.N(6000, 150000); i++ {
 		line := c07RandHistory(c, r)
 		c.Add(line, "history", fmt.Sprintf("history:len%02d", len(strings.Fields(line))-1))
 	}
